@@ -14,6 +14,9 @@ Inductive rop :=
 | IfKillWorkers (ops : list rop)
 | JoinInternals | TerminateBroken | FlagExecutorShuttingDown.   (* calls to the three functions below *)
 
+(* how a loop that fails every work item of the table guards Future.set_exception() against a future cancelled meanwhile *)
+Inductive fail_guard := NoGuard | CheckFirst | CatchInvalidState.
+
 Inductive drop_cond := DropIfWaitOrNeverStarted | DropAlways | DropNever.
 
 Definition is_prim (o : rop) : bool :=
